@@ -7,6 +7,9 @@ import (
 	"encoding/binary"
 	"fmt"
 	"math/rand"
+	"os"
+	"os/exec"
+	"path/filepath"
 
 	"git.defalsify.org/vise.git/asm"
 	"git.defalsify.org/vise.git/vm"
@@ -523,6 +526,41 @@ func runCodec(o opts) error {
 			addIntSplit(b)
 		}
 	}
+	// the disassembler command itself (dev/disasm, built from /repo by bin/check next to this binary):
+	// exit status and standard output on a file holding the bytes
+	exe, _ := os.Executable()
+	disasmBin := filepath.Join(filepath.Dir(exe), "disasm")
+	if _, err := os.Stat(disasmBin); err != nil {
+		return fmt.Errorf("disasm command not built: %v", err)
+	}
+	nDisasm := 0
+	addDisasm := func(b []byte, kind string) {
+		nDisasm++
+		fp := filepath.Join(o.out, "disasm_input.bin")
+		if err := os.WriteFile(fp, b, 0600); err != nil {
+			panic(err)
+		}
+		cmd := exec.Command(disasmBin, fp)
+		var so, se bytes.Buffer
+		cmd.Stdout, cmd.Stderr = &so, &se
+		err := cmd.Run()
+		code := 0
+		if err != nil {
+			if ee, ok := err.(*exec.ExitError); ok {
+				code = ee.ExitCode()
+			} else {
+				panic(err)
+			}
+		}
+		os.Remove(fp)
+		w.Add(hx.Case{Kind: kind, Term: fmt.Sprintf("CDisasm %s %d %s", hx.B(b), code, hx.B(so.Bytes())),
+			Desc: map[string]interface{}{"bytes": fmt.Sprintf("%x", b), "exit": code, "stderr": se.String()}})
+	}
+	disasmEvery := 4
+	if o.tier == "thorough" {
+		disasmEvery = 2
+	}
+	tails := [][]byte{{0x0a}, {0x0d}, {0x0d, 0x0a}, {0x0a, 0x0a}, {0x00}, {0x20}, {0xff}, {0x00, 0x00}, {0x00, 0x07}, {0x09}, {0x1a}}
 	// (c) truncations and single-byte corruptions of valid programs
 	for c := 0; c < o.n; c++ {
 		r := hx.Rng(o.seed, "codec-malformed", c)
@@ -537,6 +575,20 @@ func runCodec(o opts) error {
 				ins.S2 = ins.S2[:1+r.Intn(8)]
 			}
 			enc = encNewLine(enc, ins)
+		}
+		// a complete program followed by stray bytes (line terminators, padding, end-of-file marks)
+		for k, t := range tails {
+			if (c+k)%len(tails) < 3 {
+				m := append(append([]byte{}, enc...), t...)
+				addParseAll(m, "trailing-bytes", false)
+				if c%disasmEvery == 0 {
+					addDisasm(m, "disasm-trailing-bytes")
+				}
+			}
+		}
+		if c%disasmEvery == 0 {
+			addDisasm(enc, "disasm-valid")
+			addDisasm(enc[:r.Intn(len(enc)+1)], "disasm-truncation")
 		}
 		if c%5 == 0 {
 			for cut := 0; cut <= len(enc); cut++ {
@@ -565,7 +617,14 @@ func runCodec(o opts) error {
 			}
 			addParseAll(m, "corruption", false)
 			addDecodeOne(m, "corruption-vm")
+			if c%disasmEvery == 0 && k == 0 {
+				addDisasm(m, "disasm-corruption")
+			}
 		}
+	}
+	addDisasm(nil, "disasm-empty")
+	for _, t := range tails {
+		addDisasm(t, "disasm-short")
 	}
 	return w.Flush()
 }
